@@ -184,16 +184,15 @@ def repo_head() -> dict[str, object]:
 
 
 def package_uses_locks_or_threads() -> list[str]:
-    """Names of chartparse source files that mention a concurrency primitive (§2.3 safety net)."""
+    """Names of chartparse source files that mention a blocking primitive the simulator does NOT
+    own (§2.3 safety net).  ``threading`` locks / conditions / events / semaphores, ``queue`` and
+    ``concurrent.futures`` thread pools are cooperative under the simulator (detsim.simthreads) and
+    keep line-level pre-emption on; bare ``_thread`` locks, ``multiprocessing`` and ``asyncio`` are
+    not: a thread pre-empted while it holds one of those would deadlock a baton scheduler."""
     import re
 
-    # blocking primitives only: a thread that is pre-empted while it holds one would deadlock a
-    # baton scheduler.  threading.local / current_thread and the like are harmless and keep
-    # line-level pre-emption on.
-    pat = re.compile(r"(\b(RLock|Lock|Condition|Semaphore|BoundedSemaphore|Barrier|allocate_lock)\s*\("
-                     r"|threading\.Event\s*\(|\bimport\s+(_thread|multiprocessing|asyncio|queue)\b"
-                     r"|\bfrom\s+(_thread|multiprocessing|asyncio|queue|concurrent)\b"
-                     r"|\bconcurrent\.futures\b)")
+    pat = re.compile(r"(\ballocate_lock\s*\(|\bimport\s+(_thread|multiprocessing|asyncio)\b"
+                     r"|\bfrom\s+(_thread|multiprocessing|asyncio)\b|ProcessPoolExecutor)")
     hits = []
     for name in sorted(os.listdir(PKG_DIR)):
         if name.endswith(".py"):
